@@ -38,7 +38,10 @@ inductive WaitOut
   deriving DecidableEq, Repr
 
 /-- `waitDetectMessage`, loop body.  Note `role == DetectRoleSender`: every other role string
-    (receiver, "") takes the receiver branch. -/
+    (receiver, "") takes the receiver branch.  The decode target `var m msg.NatHoleSid` is declared
+    INSIDE the `for`, so an iteration sees nothing of the previous ones: the body is a function of the
+    current datagram only (C20.waitLoop_eq_spec; driven datagram by datagram by the punch engine's
+    `pwdm` op). -/
 def waitOne (role : Role) (sid : Str) : Dgram → WaitOut
   | .junk => .skip                          -- "decode sid message error" → continue
   | .sid s response =>
